@@ -36,6 +36,10 @@ def handle (op : String) (j : Json) : Option (Except String Json) :=
   | "ha" => some do
     let cfg ← getCfg j
     pure (exceptJson distJson (highestAverages cfg))
+  | "divisor" => some do
+    let div ← getDivisor j
+    let upto ← j.getObjValAs? Nat "upto"
+    pure (Json.arr ((List.range upto).map (fun k => ratJson (div k))).toArray)
   | "ha_list" => some do
     let cfg ← getCfg j
     pure (exceptJson distJson (highestAveragesList cfg))
